@@ -298,8 +298,131 @@ impl Unit {
                 self.sbest_case(cap.parse().ok()?, start.parse().ok()?, offset.parse().ok()?, len.parse().ok()?,
                     cls.parse().ok()?, order.parse().ok()?, variant.parse().ok()?, &tw)
             }
+            ["newmeta", _ho, _th, frames, classes, "|", nums @ ..] => {
+                let n: Vec<usize> = nums.iter().filter_map(|x| x.parse().ok()).collect();
+                if n.len() != 6 || n[0] < 4096 || n[2] < 4096 || n[4] < 4096 {
+                    return Some("bad-op".into());
+                }
+                let cl = crate::engine::Engine::parse_classes(classes)?;
+                self.meta_case(frames.parse().ok()?, &cl, [n[0] - 4096, n[1], n[2] - 4096, n[3], n[4] - 4096, n[5]])
+            }
             _ => return None,
         }
         Some(self.em.exp[before..].trim_end().to_string())
+    }
+
+    // ---------------------------------------------------------------- C08: metadata buffers
+    /// `LLFree::new` over buffers carved out of one arena at the given offsets/lengths
+    pub fn meta_case(&mut self, frames: usize, classes: &[(u8, usize)], o: [usize; 6]) {
+        const ARENA: usize = 1 << 18;
+        let arena = Buf4k::new(ARENA);
+        if (0..3).any(|i| o[2 * i] + o[2 * i + 1] > ARENA) {
+            return;
+        }
+        let cfg = Config { frames, classes: classes.to_vec(), default: classes.first().map(|c| c.0).unwrap_or(0), pol: Pol::Simple };
+        let classing = cfg.classing();
+        let sl = |off: usize, len: usize| -> &'static mut [u8] { unsafe { std::slice::from_raw_parts_mut(arena.ptr.add(off), len) } };
+        let meta = MetaData { local: sl(o[0], o[1]), trees: sl(o[2], o[3]), lower: sl(o[4], o[5]) };
+        let r = guarded(|| LLFree::new(frames, Init::FreeAll, &classing, meta).map(|_| ()));
+        let a = match &r {
+            Ok(Ok(())) => "ok".to_string(),
+            Ok(Err(e)) => err_str(*e).to_string(),
+            Err(p) => format!("panic {p}"),
+        };
+        // oracle: too small / misaligned / overlapping => Initialization
+        let m = LLFree::metadata_size(&classing, frames);
+        let small = o[1] < m.local || o[3] < m.trees || o[5] < m.lower;
+        let misaligned = o[0] % 64 != 0 || o[2] % 64 != 0 || o[4] % 64 != 0;
+        let inter = |a: usize, la: usize, b: usize, lb: usize| la > 0 && lb > 0 && a < b + lb && b < a + la;
+        let overl = inter(o[0], o[1], o[2], o[3]) || inter(o[2], o[3], o[4], o[5]) || inter(o[4], o[5], o[0], o[1]);
+        self.cov.oracle("C08");
+        if (small || misaligned || overl) && a != "err init" {
+            self.viol("C08", format!("LLFree::new accepted metadata buffers local@{}+{} trees@{}+{} lower@{}+{} (required {m:?}; small={small} misaligned={misaligned} overlapping={overl}): {a}", o[0], o[1], o[2], o[3], o[4], o[5]));
+        }
+        if !(small || misaligned || overl) && a != "ok" && frames > 0 {
+            self.viol("C08", format!("LLFree::new rejected valid metadata buffers: {a}"));
+        }
+        self.cov.hit("meta", &a, &format!("s{small} m{misaligned} o{overl}"));
+        let cl = if classes.is_empty() { "-".to_string() } else { classes.iter().map(|(c, n)| format!("{c}:{n}")).collect::<Vec<_>>().join(",") };
+        // addresses relative to the 4096-aligned arena, shifted so that they are positive
+        self.em.qa(
+            &format!("newmeta {HUGE_ORDER} {TREE_HUGE} {frames} {cl} | {} {} {} {} {} {}", o[0] + 4096, o[1], o[2] + 4096, o[3], o[4] + 4096, o[5]),
+            &a,
+        );
+    }
+    pub fn meta(&mut self, rng: &mut Rng, n: usize) {
+        for _ in 0..n {
+            let frames = crate::genseq::frame_choices(rng, 3);
+            let cores = 1 + rng.below(3);
+            let classes: Vec<(u8, usize)> = match rng.below(3) {
+                0 => vec![(0, cores), (1, cores)],
+                1 => vec![(0, cores), (1, cores), (2, cores)],
+                _ => vec![(0, 0), (1, 1)],
+            };
+            let cfg = Config { frames, classes: classes.clone(), default: 0, pol: Pol::Simple };
+            let m = LLFree::metadata_size(&cfg.classing(), frames);
+            // a valid layout: consecutive, 64-aligned
+            let up = |v: usize| v.next_multiple_of(64);
+            let mut o = [0, m.local, up(m.local) + 64, m.trees, 0, m.lower];
+            o[4] = up(o[2] + o[3]) + 64;
+            match rng.below(8) {
+                0 => {}
+                1 => {
+                    // one byte (or a few) short
+                    let i = rng.below(3);
+                    o[2 * i + 1] = o[2 * i + 1].saturating_sub(1 + rng.below(3));
+                }
+                2 => {
+                    // misaligned by 1..63
+                    let i = rng.below(3);
+                    o[2 * i] += 1 + rng.below(63);
+                }
+                3 => {
+                    // overlapping pair: b starts inside a
+                    let (a, b) = *rng.pick(&[(0usize, 1usize), (1, 2), (2, 0), (1, 0), (2, 1), (0, 2)]);
+                    if o[2 * a + 1] > 0 {
+                        o[2 * b] = (o[2 * a] + rng.below(o[2 * a + 1])) / 64 * 64;
+                    }
+                }
+                4 => {
+                    // b ends inside a / contains a
+                    let (a, b) = *rng.pick(&[(0usize, 1usize), (1, 2), (2, 0)]);
+                    o[2 * b] = o[2 * a].saturating_sub(64 * rng.below(3));
+                    o[2 * b + 1] += 64 * rng.below(4);
+                }
+                5 => {
+                    // larger than needed
+                    let i = rng.below(3);
+                    o[2 * i + 1] += rng.below(200);
+                }
+                6 => {
+                    // exactly adjacent
+                    o[2] = up(o[0] + o[1]);
+                    o[4] = up(o[2] + o[3]);
+                }
+                _ => {
+                    // reordered
+                    o = [up(m.lower) + 128 + up(m.trees), m.local, up(m.lower) + 64, m.trees, 0, m.lower];
+                }
+            }
+            self.meta_case(frames, &classes, o);
+        }
+    }
+}
+
+/// 4096-aligned zeroed arena
+pub struct Buf4k {
+    pub ptr: *mut u8,
+    len: usize,
+}
+impl Buf4k {
+    pub fn new(len: usize) -> Self {
+        let ptr = unsafe { std::alloc::alloc_zeroed(std::alloc::Layout::from_size_align(len, 4096).unwrap()) };
+        Self { ptr, len }
+    }
+}
+impl Drop for Buf4k {
+    fn drop(&mut self) {
+        unsafe { std::alloc::dealloc(self.ptr, std::alloc::Layout::from_size_align(self.len, 4096).unwrap()) }
     }
 }
